@@ -3,6 +3,9 @@
 _PY_NOTE = ("Trusted base: z3 5.1.0; the pysym proxy engine (engines/pysym: 64-bit bit-vector model of Python ints with interval "
             "overflow guards, import-hook AST rewrite of pure conditional expressions, struct/bytearray shims); binja_test_mocks as the "
             "Binary Ninja API. Every counterexample is replayed concretely against the unmodified code before it is reported.")
+_RS_NOTE = ("Trusted base: z3 5.1.0; the rsym engine (engines/rsym: reader + symbolic interpreter for the LLVM IR rustc 1.95 emits for the real sc62015-core crate, "
+            "release profile, opt-level 1, fat LTO incl. the parts of std it uses; libc stubs listed in the evidence); the pysym engine for the Python side; "
+            "every counterexample is replayed concretely: unmodified Python core vs the natively compiled Rust harness.")
 
 CHECKS = [
     {
@@ -54,10 +57,10 @@ CHECKS.append({
     "level_note": _PY_NOTE,
 })
 CHECKS.append({
-    "id": "C08", "engine": "pysym", "level": "other", "design_ref": "DESIGN.md section 4 / C08",
+    "id": "C08", "engine": "pysym+rsym", "level": "other", "design_ref": "DESIGN.md section 4 / C08",
     "technique": "inductive step decided by z3: one/two symbolic writes by name from an arbitrary symbolic register-file state through the real Registers/CPURegistersSnapshot, all reads compared with a z3 alias/width spec",
-    "level_text": "z3 decides, for all 32-bit written values and all prior register-file states satisfying the representation invariant, that every read returns the specified alias/width/flag value, that the invariant is re-established (so the step extends to write sequences of any length) and that a snapshot applied to a fresh file reproduces every read. Python register file only in this revision; the Rust half is listed as outside the claim until the rsym engine carries it.",
-    "level_note": _PY_NOTE,
+    "level_text": "z3 decides, for all 32-bit written values and all prior register-file states satisfying the representation invariant, that every read returns the specified alias/width/flag value, that the invariant is re-established (so the step extends to write sequences of any length) and that a snapshot applied to a fresh file reproduces every read. Both register files: the Python one by pysym, the Rust LlamaState (set_reg/get_reg/mask_for, all ordered pairs of writes) from the crate's LLVM IR by rsym, compared with the spec and with each other.",
+    "level_note": _PY_NOTE + " " + _RS_NOTE,
 })
 _claimed = {c["id"] for c in CHECKS} | {"C16"}
 NOT_APPLICABLE[:] = [n for n in NOT_APPLICABLE if n["property_id"] not in {c["id"] for c in CHECKS}]
@@ -67,41 +70,38 @@ RUNNERS["C15"] = ("lcd_check", "main", ())
 CHECKS.append({
     "id": "C07", "engine": "pysym", "level": "exploration", "design_ref": "DESIGN.md section 4 / C07",
     "technique": "2-run non-interference decided by z3: every instruction class executed with TEMP registers, call bookkeeping and trace PCs as fresh symbolic variables; self-composition by substitution; plus process-history, re-execution and stepper-vs-in-place equalities",
-    "level_text": "Every (prefix, opcode, length) class of the Python core is executed symbolically with all hidden state (TEMP0-13, call_sub_level, _last_pc/_current_pc) as free variables; z3 decides that no two hidden-state valuations give different architectural post-states (or the variables are shown not to occur at all). Decoder templates / caches are covered by executing Y after an unrelated X in the same process and by re-executing at the same address after the operand bytes changed; CPUStepper.step is compared with in-place execution. Python core only; the Rust half is outside this revision's claim.",
+    "level_text": "Every (prefix, opcode, length) class of the Python core is executed symbolically with all hidden state (TEMP0-13, call_sub_level, _last_pc/_current_pc) as free variables; z3 decides that no two hidden-state valuations give different architectural post-states (or the variables are shown not to occur at all). Decoder templates / caches are covered by executing Y after an unrelated X in the same process and by re-executing at the same address after the operand bytes changed; CPUStepper.step is compared with in-place execution. Python core; the Rust core's hidden state is exercised through C06 (both cores from the same symbolic architectural state).",
     "level_note": _PY_NOTE,
 })
 CHECKS.append({
-    "id": "C13", "engine": "pysym", "level": "other", "design_ref": "DESIGN.md section 4 / C13",
+    "id": "C13", "engine": "pysym+rsym", "level": "other", "design_ref": "DESIGN.md section 4 / C13",
     "technique": "inductive step decided by z3: one symbolic TimerScheduler.advance/reset call from an arbitrary symbolic scheduler state (periods, targets, cycle counter), catch-up loop unwound K times under an unwinding assumption",
-    "level_text": "z3 decides for all periods, targets and cycle values within the bounds that a timer fires iff enabled, period>0 and due; that the next target is strictly in the future, at most one period ahead and phase-preserving (so per-cycle ticking fires exactly once per boundary); disabled/zero-period timers never fire. Python scheduler only in this revision.",
-    "level_note": _PY_NOTE,
+    "level_text": "z3 decides for all periods, targets and cycle values within the bounds that a timer fires iff enabled, period>0 and due; that the next target is strictly in the future, at most one period ahead and phase-preserving (so per-cycle ticking fires exactly once per boundary); disabled/zero-period timers never fire. Python TimerScheduler by pysym and Rust TimerContext (tick_timers/reset, 24-bit symbolic cycle values zero-extended to u64) from LLVM IR by rsym, including agreement of the two.",
+    "level_note": _PY_NOTE + " " + _RS_NOTE,
 })
 CHECKS.append({
-    "id": "C15", "engine": "pysym", "level": "other", "design_ref": "DESIGN.md section 4 / C15",
+    "id": "C15", "engine": "pysym+rsym", "level": "other", "design_ref": "DESIGN.md section 4 / C15",
     "technique": "inductive step decided by z3: one symbolic read/write through the real HD61202Controller from an arbitrary two-chip state (VRAM as z3 arrays) compared with a z3 protocol spec; all 7680 display pixels compared with their VRAM bit over fully symbolic VRAM",
-    "level_text": "z3 decides, for all addresses (both windows, every low-nibble decoding, addresses outside) and values, that chip state, VRAM and returned status/data equal the HD61202 protocol spec after one operation from an arbitrary state (plus fixed-shape 3-operation sequences for busy/read latency), and that each of the 240x32 pixels of get_display_buffer equals NOT(one VRAM bit) AND chip-on, the map being injective and column-local. Python model only in this revision; PIL image rendering (render_combined_image) crosses a C boundary and is outside.",
-    "level_note": _PY_NOTE,
+    "level_text": "z3 decides, for all addresses (both windows, every low-nibble decoding, addresses outside) and values, that chip state, VRAM and returned status/data equal the HD61202 protocol spec after one operation from an arbitrary state (plus fixed-shape 3-operation sequences for busy/read latency), and that each of the 240x32 pixels of get_display_buffer equals NOT(one VRAM bit) AND chip-on, the map being injective and column-local. Python HD61202Controller by pysym and Rust LcdController (write/read/display_buffer) from LLVM IR by rsym: arbitrary chip state driven through the protocol, VRAM as symbolic arrays, post-state read back from the controller object. PIL image rendering (render_combined_image) crosses a C boundary and is outside.",
+    "level_note": _PY_NOTE + " " + _RS_NOTE,
 })
 NOT_APPLICABLE[:] = [n for n in NOT_APPLICABLE if n["property_id"] not in {c["id"] for c in CHECKS}]
 RUNNERS["C14"] = ("keyboard_check", "main", ())
 RUNNERS["C11"] = ("membus_check", "main", ())
 CHECKS.append({
-    "id": "C11", "engine": "pysym", "level": "other", "design_ref": "DESIGN.md section 4 / C11",
+    "id": "C11", "engine": "pysym+rsym", "level": "other", "design_ref": "DESIGN.md section 4 / C11",
     "technique": "inductive step decided by z3: one symbolic store + load through the real PCE500Memory/MemoryBus at symbolic 32-bit addresses from an arbitrary backing store (z3 arrays), per memory configuration",
-    "level_text": "For each memory configuration (no ROM, full/short ROM image, card absent/8K/read-only, RAM overlay) z3 decides for all 32-bit addresses and values that a load after a store returns the stored byte iff both addresses denote the same writable canonical cell and the previous value otherwise, that internal and external cells never influence each other, that read-only cells never change and that multi-byte accesses are little-endian compositions. Python machine model only in this revision.",
-    "level_note": _PY_NOTE,
+    "level_text": "For each memory configuration (no ROM, full/short ROM image, card absent/8K/read-only, RAM overlay) z3 decides for all 32-bit addresses and values that a load after a store returns the stored byte iff both addresses denote the same writable canonical cell and the previous value otherwise, that internal and external cells never influence each other, that read-only cells never change and that multi-byte accesses are little-endian compositions. Python PCE500Memory by pysym and Rust MemoryImage (store/load under 7 configurations incl. the PC-E500 read-only map, RAM mirror, card, overlays) from LLVM IR by rsym.",
+    "level_note": _PY_NOTE + " " + _RS_NOTE,
 })
 CHECKS.append({
-    "id": "C14", "engine": "pysym", "level": "other", "design_ref": "DESIGN.md section 4 / C14",
+    "id": "C14", "engine": "pysym+rsym", "level": "other", "design_ref": "DESIGN.md section 4 / C14",
     "technique": "step relations decided by z3: one symbolic KeyboardMatrix operation (scan tick, strobe write, key-input read, press/release, FIFO enqueue) from an arbitrary state of two symbolic keys / an arbitrary ring-buffer state",
-    "level_text": "z3 decides from arbitrary key states (flags, tick counters, thresholds, strobe bits symbolic; both column polarities; KOL and KOH columns) that the key-input register shows exactly the debounced keys on strobed columns, that each key follows the debounce/repeat/release automaton with press only on entering and release only on leaving the debounced state, that idle keys emit nothing and that the event ring never exceeds 7 entries, drops only its oldest entry and keeps order. Python matrix model only; KEYI gating is machine-level (C12).",
-    "level_note": _PY_NOTE,
+    "level_text": "z3 decides from arbitrary key states (flags, tick counters, thresholds, strobe bits symbolic; both column polarities; KOL and KOH columns) that the key-input register shows exactly the debounced keys on strobed columns, that each key follows the debounce/repeat/release automaton with press only on entering and release only on leaving the debounced state, that idle keys emit nothing and that the event ring never exceeds 7 entries, drops only its oldest entry and keeps order. Python KeyboardMatrix by pysym and Rust KeyboardMatrix (scan_tick, handle_read/write, press/release, inject, write_fifo_to_memory incl. KEYI gating) from LLVM IR by rsym; KIL reads in Rust are held to the property's two bounds (never shown without a held/recently released key, always shown for a debounced held key).",
+    "level_note": _PY_NOTE + " " + _RS_NOTE,
 })
 NOT_APPLICABLE[:] = [n for n in NOT_APPLICABLE if n["property_id"] not in {c["id"] for c in CHECKS}]
 RUNNERS["C06"] = ("parity_check", "main", ())
-_RS_NOTE = ("Trusted base: z3 5.1.0; the rsym engine (engines/rsym: reader + symbolic interpreter for the LLVM IR rustc 1.95 emits for the real sc62015-core crate, "
-            "release profile, opt-level 1, fat LTO incl. the parts of std it uses; libc stubs listed in the evidence); the pysym engine for the Python side; "
-            "every counterexample is replayed concretely: unmodified Python core vs the natively compiled Rust harness.")
 CHECKS.append({
     "id": "C06", "engine": "pysym+rsym", "level": "translation_validation", "design_ref": "DESIGN.md section 4 / C06",
     "technique": "translation validation per encoding class: Python core executed by proxy objects and Rust core executed from its LLVM IR on the same z3 variables (registers, flags, operand bytes, one shared memory array); z3 decides equality of registers, C/Z, PC, low-power state, consumed length and whole-memory extensionality for every pair of compatible paths",
